@@ -504,6 +504,8 @@ class InterpreterBase:
         index_holder = self.evaluate_statement(node.index)
         if index_holder is None:
             raise InvalidArguments('Cannot use void statement as index.')
+        if isinstance(index_holder, Disabler):
+            return index_holder
         index = _unholder(index_holder)
 
         iobject.current_node = node
